@@ -182,7 +182,7 @@ def worker(case: Dict[str, Any]) -> CaseResult:
             cfg_l["plugins"] = plist
             cfg_l["target_package_name"] = name
             cfg_l["include_comments"] = "stable"
-            cfg = write_case(root, sdl, queries, cfg_l)
+            cfg = write_case(root, sdl, queries, cfg_l, extra_files=case.get("extra_files"))
             from pathlib import Path
             from types import SimpleNamespace
             gd = generate_in_subprocess(root, "client", cfg)
@@ -367,6 +367,8 @@ def run(tier: str, seed: int) -> int:
             pl.append(twin)
             pl.append([FR_MODULE if p_ == FR else p_ for p_ in twin])
         c["plugin_lists"] = pl
+        if i % 3 == 1:
+            cw.with_mixins(c, 1)  # @mixin on fields and fragment definitions: the codegen-only directive must not reach any plugin's copy of the operation strings
         cases.append(c)
 
     def on_result(case, res):
